@@ -194,7 +194,7 @@ def r3_locale_consistency(ctx, prog):
     r = Rule("C06.R3", "one locale per resolution step; resolve before populate; every reference recorded and visited",
              "`renders exactly what the referenced key renders in the same locale`: looking the target up in one locale and "
              "resolving or populating it under another mixes locales, and only for shapes (null targets, nested references) "
-             "the fixtures do not contain", floor=6)
+             "the fixtures do not contain", floor=5)
     b = prog.body("ParsedValue::resolve_foreign_key_inner")
     if b is None:
         r.missing("resolve_foreign_key_inner")
@@ -207,36 +207,27 @@ def r3_locale_consistency(ctx, prog):
         return r
     # which locale each lookup / nested resolution / substitution uses, and how a null target falls back, is decided by
     # evaluation (C06.R0, rules/fkeval.py): the resolution step is interpreted on every target kind x inherits table shape.
-    gv = M.call_blocks(b, r"locale::LocalesOrNamespaces::get_value_at$")
+    # a private helper extracted from this function (single caller) is part of it: a call to such a helper counts as what it does
+    root = M._root(b.name)
+    M.owner_of(prog, b.name)        # (fills prog._callers)
+    owned = {n2 for n2, bb in prog.bodies.items() if bb.crate == b.crate and M._root(n2) != root and prog._callers.get(M._root(n2)) == {root}
+             and not getattr(prog.bodies.get(M._root(n2)), "is_pub", True)}
+
+    def sites(rx):
+        out = list(M.call_blocks(b, rx))
+        for i2, t2 in b.calls():
+            cn = callee_name(t2) or ""
+            tgt = [n2 for n2 in owned if cn and (n2 == cn or n2.endswith("::" + cn.split("::")[-1]) and cn.split("::")[-1] == n2.split("::")[-1])]
+            if tgt and any(M.call_blocks(prog.bodies[n3], rx) for n3 in owned if M._root(n3) in {M._root(x) for x in tgt}) and i2 not in out:
+                out.append(i2)
+        return sorted(out)
+    gv = sites(r"locale::LocalesOrNamespaces::get_value_at$")
     if gv:
         r.inst("resolve_foreign_key_inner#lookup", "%d lookup site(s) through LocalesOrNamespaces::get_value_at" % len(gv))
     else:
         r.viol("R3:resolve_foreign_key_inner#lookup", "the target is no longer looked up through LocalesOrNamespaces::get_value_at", file=b.file, line=b.line)
-    # order: resolve target & args before populate
-    pop = M.call_blocks(b, r"ParsedValue::populate$")
-    res = M.call_blocks(b, r"ParsedValue::resolve_foreign_key$")
-    # the arguments may be resolved in a loop of this body, or in a closure handed to an iterator method (try_for_each ..)
-    closure_sites = []
-    for cb in prog.closures_of(b):
-        if M.call_blocks(cb, r"ParsedValue::resolve_foreign_key$"):
-            for i2, j2, s2 in b.assigns():
-                if s2["rv"]["k"] == "Aggregate" and s2["rv"].get("agg") == "Closure" and s2["rv"].get("def") == cb.name:
-                    cl_local = s2["place"]["l"]
-                    for ci, ct in b.calls():
-                        if any((op_place(a) or {}).get("l") == cl_local for a in ct["args"]) and re.search(r"Iterator::(try_for_each|for_each|map|try_fold)$", callee_name(ct) or ""):
-                            closure_sites.append(ci)
-    if pop and (len(res) >= 2 or (len(res) >= 1 and closure_sites)) and all(any(b.dominates(x, p) for p in pop) or M.must_pass(b, [x], pop) for x in res[:1]):
-        # the args loop: a loop containing a resolve call dominates populate
-        in_loop = [x for x in res if M.loop_of(b, x)]
-        outside = [x for x in res if not M.loop_of(b, x)]
-        ok = (bool(in_loop) or bool(closure_sites)) and bool(outside) and all(b.dominates(x, pop[0]) for x in outside) and all(b.dominates(M.loop_of(b, x)[0], pop[0]) for x in in_loop) \
-            and all(b.dominates(c, pop[0]) for c in closure_sites)
-        if ok:
-            r.inst("resolve_foreign_key_inner#order", "target resolved, then every argument (loop over args.values()), then populate")
-        else:
-            r.viol("R3:resolve_foreign_key_inner#order", "populate is not preceded by the resolution of the target and of every argument", file=b.file, line=b.line)
-    else:
-        r.viol("R3:resolve_foreign_key_inner#order", "cannot find resolve(target), resolve(args) and populate in this order", file=b.file, line=b.line)
+    # order (every nested reference resolved before the substitution) is observed by the evaluation: C06.R0 `#order`
+    pop = sites(r"ParsedValue::populate$")
     # stored
     sets = M.agg_blocks(b, "parsed_value::ForeignKey", "Set")
     rep = M.call_blocks(b, r"std::mem::replace$")
@@ -308,17 +299,9 @@ def r4_order(ctx, prog):
             r.viol("R4:make_builder_keys#default", "resolve_foreign_keys is not given cfg_file.default as the default locale", file=b.file, line=t["line"])
         else:
             r.inst("make_builder_keys#default", "default locale = cfg_file.default")
-    g = prog.body("parse_locales::get_value_at_path")
-    if g is None:
-        r.viol("R4:get_value_at_path", "recorded paths are no longer looked up at the merged plural key (a `$t()` inside `key_one` would not be found)", file=PM)
-    else:
-        calls = M.call_blocks(g, r"LocalesOrNamespaces::get_value_at$")
-        if len(calls) >= 2:
-            r.inst("get_value_at_path", "recorded path, else the same path with the plural suffix stripped")
-        else:
-            r.viol("R4:get_value_at_path#retry", "no retry at the merged plural key", file=g.file, line=g.line)
     from rules import fkeval, absint as _absint
     try:
+        # decided by evaluating get_value_at_path against is_possible_plural (the recorded path first, then exactly the merged key)
         fkeval.check_plural_path(ctx, r, "R4")
     except _absint.Unknown as u:
         r.viol("R4:get_value_at_path#undecided", "cannot be interpreted on the current code (%s): not decided on this tree (fail closed)" % str(u)[:300], file=PM)
@@ -357,11 +340,32 @@ def r6_lookup(ctx, prog):
     except _absint.Unknown as u:
         r.viol("R6:get_value_at#undecided", "the lookup cannot be interpreted on the current code (%s): not decided on this tree (fail closed)" % str(u)[:300], file=PL)
     fn = ctx.ast.fn(PV, "parse_key_path", impl_self="ParsedValue")
-    t = flatp(show(fn.body)) if fn else ""
-    if has(t, "ifletSomenamespace,rest=path.split_once':'") and has(t, "forkeyinpath.split'.'{letkey=Key::newkey?;key_path.push_keykey;}"):
-        r.inst("parse_key_path", "`ns:a.b.c` -> namespace ns, path [a, b, c] in order")
+    if fn is None:
+        r.missing("ParsedValue::parse_key_path")
     else:
-        r.viol("R6:parse_key_path", "key path syntax changed", file=PV)
+        # evaluated: `ns:a.b.c` -> namespace ns, path [a, b, c] in order; no `:` -> no namespace; an invalid segment -> None
+        from rules.absint import AEval as _AE, C as _C, CF as _CF, L as _L
+        _S = lambda x: ("str", x)  # noqa: E731
+        _K = lambda n: _CF("Key", name=_S(n))  # noqa: E731
+        want = {"a": (None, ["a"]), "a.b.c": (None, ["a", "b", "c"]), "ns:a.b": ("ns", ["a", "b"]), "my_ns:k": ("my_ns", ["k"]), " a . b ": (None, ["a", "b"]), "a..b": None, "ns:": None, ":a": None, "": None, "a.b-c": None}
+        _absint.set_program(ctx.ast)
+        badp = None
+        try:
+            for text_, w in want.items():
+                ev = _AE(funcs={})
+                ev.path_builtins = {"Key::new": lambda a: _C("Some", _K(a[0][1].strip())) if a[0][0] == "str" and re.match(r"^[A-Za-z_][A-Za-z0-9_]*$", a[0][1].strip()) else _C("None")}
+                got = ev.run_fn(fn, [_S(text_)])
+                if isinstance(got, str):
+                    raise _absint.Unknown(got)
+                wv = _C("None") if w is None else _C("Some", _CF("KeyPath", namespace=_C("Some", _K(w[0])) if w[0] else _C("None"), path=_L(*[_K(x) for x in w[1]])))
+                if got != wv and badp is None:
+                    badp = "`$t(%s)` names %s, the documented syntax says %s" % (text_, _absint.fmt(got)[:160], _absint.fmt(wv)[:160])
+            if badp:
+                r.viol("R6:parse_key_path", badp, file=PV, line=fn.line)
+            else:
+                r.inst("parse_key_path", "%d spellings: `ns:a.b.c` -> namespace ns, path [a, b, c] in order; segments trimmed; an empty or invalid segment rejects the reference" % len(want))
+        except _absint.Unknown as u:
+            r.viol("R6:parse_key_path#undecided", "cannot be interpreted on the current code (%s): not decided on this tree (fail closed)" % str(u)[:200], file=PV, line=fn.line)
     for v in ("MissingForeignKey", "InvalidForeignKey", "RecursiveForeignKey", "InvalidForeignKeyArgs", "InvalidCountArg", "InvalidCountArgType", "CountArgOutsideRange"):
         sites = sorted({n for n, bb in prog.bodies.items() if bb.crate == "leptos_i18n_parser" and "fmt::" not in n and any(True for _ in bb.aggregates("error::Error", v))})
         if sites:
